@@ -14,8 +14,10 @@ macro_rules! format { ($($t:tt)*) => { Msg } }
 pub mod tracing {
     macro_rules! trace { ($($t:tt)*) => { () } }
     macro_rules! debug { ($($t:tt)*) => { () } }
+    macro_rules! info { ($($t:tt)*) => { () } }
     macro_rules! warn_ { ($($t:tt)*) => { () } }
-    pub(crate) use {trace, debug, warn_ as warn};
+    macro_rules! error { ($($t:tt)*) => { () } }
+    pub(crate) use {trace, debug, info, warn_ as warn, error};
 }
 #[derive(Clone, Copy)] pub struct Msg;
 /// stands for std::io::Error (`std::io::Error` / `std::io::ErrorKind` in the extracted text are redirected here, see
